@@ -354,6 +354,12 @@ int main (int ac,
 		EGioFile_t *out_f;
 		snprintf (out_f_name, sizeof (out_f_name), "%s", solname);
 		out_f = EGioOpen (out_f_name, "w");
+		if (!out_f)
+		{
+			fprintf (stderr, "Could not open solution file %s\n", out_f_name);
+			rval = 1;
+			ILL_CLEANUP;
+		}
 		switch (status)
 		{
 		case QS_LP_OPTIMAL:
